@@ -35,7 +35,7 @@ CHECKS = {
         assumptions=["the reference model (refmodel crate) is trusted; it is cross-checked against the evolution table in C03 and pinned by the Scala golden file in C04"],
     ),
     "C03": dict(
-        claim="Held on N observed executions: for every generated legal history, every (writer, reader) version pair, four embeddings (struct, enum variant, between siblings of a v0 record, inside a chunk of an evolved record) and generated values, the library's result equals the documented outcome computed from the history alone (value, or the specific error variant and field name) and the consumption monitor finds nothing left unread where the data is framed. Two independent oracles (history table, strict reference decoder with the reader's schema) must agree with each other on every case, otherwise the run is inconclusive.",
+        claim="Held on N observed executions: for every generated legal history, every (writer, reader) version pair, four embeddings (struct, enum variant, between siblings of a v0 record, inside a chunk of an evolved record) and generated values, the library's result equals the documented outcome computed from the history alone (histories in which the name of a removed field comes back as a new field included: the table goes by field identity, not by name) (value, or the specific error variant and field name) and the consumption monitor finds nothing left unread where the data is framed. Two independent oracles (history table, strict reference decoder with the reader's schema) must agree with each other on every case, otherwise the run is inconclusive.",
         note="Trusted: refmodel::evo::History::expected (the documented-outcome table) and the strict reference decoder; legal histories only (DESIGN §4.4); the embedded + stored-version-0 + removal combination is excluded (DESIGN §9-1). Known finding D18 (header names inside a chunk the reader skips) is reported, not suppressed silently.",
         technique="history-level oracle + strict reference decoder over generated evolution histories x version pairs",
         level="exploration",
@@ -48,7 +48,7 @@ CHECKS = {
         assumptions=["legal histories only: chunk-0 field order never changes, a field is removed / made transient only while it is the last one serialized in its chunk, names are never reused"],
     ),
     "C04": dict(
-        claim='Held on N observed executions in both directions: library bytes == format (via strict reference decode + byte-identical re-encode), and reference encodings in every legal form choice decode to the value they denote. Anchors: the Scala golden file (242 540 bytes) is decoded identically by library and reference, and the reference re-encodes it byte for byte once the writer\'s form choices are replayed.',
+        claim='Held on N observed executions in both directions: library bytes == format (via strict reference decode + byte-identical re-encode), and reference encodings in every legal form choice decode to the value they denote — form choices being the unknown-length sequence form at any sequence position and, at any tuple, map-entry or enum position, the layout of a writer one to three evolution steps ahead (version byte n, header, chunks the reader skips). Anchors: the Scala golden file (242 540 bytes) is decoded identically by library and reference, and the reference re-encodes it byte for byte once the writer\'s form choices are replayed.',
         note='Trusted: the reference model as transcription of the desert format (Appendix A of DESIGN.md); time/uuid/big-number layouts frozen as found.',
         technique='byte-exact differential monitor against an independent reference encoder/decoder',
         level="exploration",
@@ -66,7 +66,7 @@ CHECKS = {
         assumptions=["chrono / uuid / big-number layouts are frozen as found on the pinned tree (no external document)"],
     ),
     "C05": dict(
-        claim="Fault enumeration over hostile inputs: every byte string of length <= 2 for every catalogue type and derived declaration (length <= 3 for the systematic catalogue in the thorough tier), structure-aware tamperings of valid encodings, random bytes with a varint dictionary, and hostile read sequences on the three BinaryInput implementations, each executed under the panic monitor, the allocation monitor (largest single request <= 64 KiB + 256 x len, total <= 256 KiB + 1024 x len), the step monitor (sequence items <= len + 65536, hook) and with crash attribution through breadcrumbs; debug (overflow checks) and release builds; lenient client readers (a field codec that survives a failing nested decode) on tampered data; nesting-depth probes and own-process probes (one input per process, for inputs that may end in an allocation failure); thorough adds AddressSanitizer / MemorySanitizer / valgrind-memcheck lanes and all 3-byte inputs. Held on the executions counted in the evidence, with the known findings listed.",
+        claim="Fault enumeration over hostile inputs: every byte string of length <= 2 for every catalogue type and derived declaration (length <= 3 for the systematic catalogue in the thorough tier), structure-aware tamperings of valid encodings, random bytes with a varint dictionary, and hostile read sequences on the three BinaryInput implementations, each executed under the panic monitor, the allocation monitor (largest single request <= 64 KiB + 256 x len, total <= 256 KiB + 1024 x len), the step monitor (sequence items <= len + 65536, hook) and with crash attribution through breadcrumbs; debug (overflow checks) and release builds; lenient client readers (a field codec that survives a failing nested decode) on tampered data; a lane under a process time zone with daylight saving, fed wall-clock times the zone skips or repeats; every error returned is rendered (Display, Debug) inside the monitored call; nesting-depth probes and own-process probes (one input per process, for inputs that may end in an allocation failure); thorough adds AddressSanitizer / MemorySanitizer / valgrind-memcheck lanes and all 3-byte inputs. Held on the executions counted in the evidence, with the known findings listed.",
         note="Trusted: the counting allocator and the verif-hooks step counter; budgets are constants justified in DESIGN 6.2. Known findings D09 (zero-width elements), D16 (unbounded recursion depth), D26 (a citation costs a copy of the string) and D27 (hash containers keyed by big decimals) are reported, not suppressed silently.",
         technique="panic / allocation / step monitors + sanitizer lanes over exhaustive short inputs and structure-aware mutation",
         level="fault_enumeration",
@@ -93,7 +93,7 @@ CHECKS = {
                         "accepted_and_agreed:splice": 100, "accepted_and_agreed:bitflip": 100, "accepted_and_agreed:overwrite": 100}},
     ),
     "C07": dict(
-        claim='Held on N observed executions: the consumption monitor drains the context after decoding enc(a)++s and finds exactly s; multi-value streams read back in order.',
+        claim='Held on N observed executions: the consumption monitor drains the context after decoding enc(a)++s and finds exactly s; multi-value streams read back in order; the same for reference encodings as a foreign writer may produce them (unknown-length sequence forms; tuples, map entries and enums written by a newer writer with chunks this reader must skip).',
         note='Trusted: DeserializationContext::read_u8 as the drain primitive (a public BinaryInput).',
         technique='consumption monitor (drain the context after decode) over suffix workloads',
         level="exploration",
@@ -107,7 +107,7 @@ CHECKS = {
                         "newer_tuples_exact_consumption": 5000}},
     ),
     "C08": dict(
-        claim='Fault enumeration over crash points: every strict prefix of every generated encoding (all cut points up to 4 KiB) is fed to the decoder; each must be rejected with Err. Also: prefixes of reference encodings in the unknown-length sequence form, prefixes of other versions\' data under every version of the same history (stored version >= 1), and cut points of multi-megabyte values.',
+        claim='Fault enumeration over crash points: every strict prefix of every generated encoding (all cut points up to 4 KiB) is fed to the decoder; each must be rejected with Err. Also: prefixes of reference encodings in the unknown-length sequence form, prefixes of other versions\' data under every version of the same history (stored version >= 1), cut points of multi-megabyte values, and prefixes of foreign-writer encodings whose tuples / enums carry chunks of a newer writer (a cut inside a chunk that is only skipped must be noticed).',
         note='Covers same-definition reads; cross-version truncation is exercised by C03. Encodings come from the generators of C01/C02.',
         technique='exhaustive truncation-point enumeration with panic monitor',
         level="fault_enumeration",
@@ -149,7 +149,7 @@ CHECKS = {
         coverage_extra={"exhaustive": lambda counters, tier: counters.get("exhaustive_bit_patterns", 0) == 2**32},
     ),
     "C12": dict(
-        claim="Held on N observed executions: for 24 element types and lengths 0..8, 16, 17, 32, 40, 63, 64, 127, 128 (8191/8192 thorough), element lists are written by every source container (Vec, slice, array, LinkedList, HashSet, BTreeSet, an iterator without exact size hint = real unknown-length writer, the reference unknown-length encoder) and read by every target container (Vec, array of matching length, LinkedList, HashSet, BTreeSet); pair lists against HashMap / BTreeMap; Vec<u8>, &[u8], [u8; N], Bytes among themselves. Ordered targets must reproduce the order written, sets the set of elements. Element types include those whose size in memory says nothing about their encoding: zero-sized but encoded (((),), [u64; 0], (PhantomData,)) and pointer-sized but empty on the wire (Box<()>, Rc<()>, Arc<PhantomData>).",
+        claim="Held on N observed executions: for 24 element types and lengths 0..8, 16, 17, 32, 40, 63, 64, 127, 128 (8191/8192 thorough), element lists are written by every source container (Vec, slice, array, LinkedList, HashSet, BTreeSet, an iterator without exact size hint = real unknown-length writer, the reference unknown-length encoder) and read by every target container (Vec, array of matching length, LinkedList, HashSet, BTreeSet); pair lists against HashMap / BTreeMap; Vec<u8>, &[u8], [u8; N], Bytes among themselves. Ordered targets must reproduce the order written, sets the set of elements; every cell is decoded through an explicit context with sentinel bytes behind the sequence and must consume exactly the sequence. Element types include those whose size in memory says nothing about their encoding: zero-sized but encoded (((),), [u64; 0], (PhantomData,)) and pointer-sized but empty on the wire (Box<()>, Rc<()>, Arc<PhantomData>).",
         note="Trusted: to_val of the containers; for hash containers the order written is taken from iterating the same instance.",
         technique="full source x target container matrix executed on generated element lists",
         level="exploration",
@@ -176,7 +176,7 @@ CHECKS = {
         floors={"any": {"transient_values_do_not_influence_bytes": 5000, "transient_fields_decoded_to_default": 5000, "transient_constructor_refused": 500, "made_transient_versions_encodable": 500, "made_transient_after_earlier_steps_encodable": 100, "transient_default_for_older_data": 500}},
     ),
     "C15": dict(
-        claim="Held on N observed executions: every generated value of every subject type is written to Vec<u8>, BytesMut, serialize_to_bytes, serialize_to_byte_vec and a user-defined recording output — identical bytes — and SizeCalculator reports exactly their number; 80 000 (2 000 000 thorough) ordinary and hostile primitive read sequences run on SliceInput, OwnedInput and DeserializationContext must agree result by result (value, error class, panic) and report end of input at the same point. Totals beyond 2^32 bytes (up to 12 GiB, every single length small) are pushed through a size-calculating context and a counting user output.",
+        claim="Held on N observed executions: every generated value of every subject type is written to Vec<u8>, BytesMut, serialize_to_bytes, serialize_to_byte_vec and a user-defined recording output — identical bytes — and SizeCalculator reports exactly their number; 80 000 (2 000 000 thorough) ordinary and hostile primitive read sequences run on SliceInput, OwnedInput and DeserializationContext must agree result by result (value, error class, panic) and report end of input at the same point; 200 000 sequences of primitive writes (variable-length integers on and around every power of two in both signs, fixed-width values, byte runs, compressed blocks) go to Vec<u8>, BytesMut and a user output, directly, behind a SerializationContext and into a pushed chunk buffer — identical bytes — and to SizeCalculator directly and behind a context — the exact count. Totals beyond 2^32 bytes (up to 12 GiB, every single length small) are pushed through a size-calculating context and a counting user output.",
         note="Trusted: the recording output (10 lines).",
         technique="differential monitor across sinks and across input implementations",
         level="exploration",
